@@ -339,7 +339,7 @@ class Run:
                 self.inconc.append(dict(what="scale_only", prop=p, sig=s, count=n))
 
     # ------------------------------------------------------------ verdict
-    def finish(self, level, rule, musthit=(), assumptions=(), explanation=None):
+    def finish(self, level, rule, musthit=(), assumptions=(), explanation=None, softhit=()):
         known = load_known()
         mine = [v for v in self.viols if v.get("scale") == "prod" and v["prop"] == self.prop]
         other = [v for v in self.viols if v.get("scale") == "prod" and v["prop"] != self.prop]
@@ -376,6 +376,12 @@ class Run:
             log("INCONCLUSIVE " + json.dumps(inc)[:400])
         # must-hit classes: a zero means the verdict would be vacuous -> harness error
         missing = [m for m in musthit if self.counters.get(m, 0) == 0]
+        # classes reached by steering a data-dependent quantity (a search that may not converge for a given
+        # seed): not reaching one is said, it is neither a verdict nor a harness error
+        soft_missing = [m for m in softhit if self.counters.get(m, 0) == 0]
+        if soft_missing:
+            self.inconc.append(dict(what="steered alignment not reached by the search", classes=soft_missing))
+            log("INCONCLUSIVE " + json.dumps(self.inconc[-1]))
         coverage = dict(
             evaluations=self.evaluations,
             distinct_nontrivial=len(self.fps),
@@ -384,7 +390,7 @@ class Run:
             exhaustive=False,
             counters=self.counters,
             stages=self.stages,
-            must_hit={m: self.counters.get(m, 0) for m in musthit},
+            must_hit={m: self.counters.get(m, 0) for m in list(musthit) + list(softhit)},
             violations_new=new_viol,
             known_findings_seen=known_printed,
             forwarded_observations=self.forwarded,
